@@ -1551,11 +1551,15 @@ class Parallel(Logger):
 
                 try:
                     islice = list(itertools.islice(iterator, big_batch_size))
-                except Exception as e:
+                except BaseException as e:
                     # Handle the fact that the generator of task raised an
                     # exception. As this part of the code can be executed in
                     # a thread internal to the backend, register a task with
                     # an error that will be raised in the user's thread.
+                    # (BaseException: in such a thread a SystemExit or any
+                    # other exception that is not an Exception would be lost
+                    # as well, and the call would hang or return the results
+                    # of the items taken so far.)
                     if isinstance(e.__context__, queue.Empty):
                         # Suppress the cause of the exception if it is
                         # queue.Empty to avoid cluttered traceback. Only do it
